@@ -15,8 +15,15 @@ def corpus(tier, seed):
     for i in range(n):
         r = gen.seeded(seed, 'C08c', i)
         big = (i % 45 == 7) if tier == 'quick' else (i % 25 == 0)      # a few files spanning several decoder windows
+        pre = gen.gen_preamble(r, rich=(i % 4 == 1), nbps=r.choice([1, 2, 3])) if i % 4 else gen.gen_preamble(r)
+        for bp in pre['bps']:
+            if bp['tps'] == 0 or bp['tps'] > 10 ** 9:
+                bp['tps'] = 1000
+        if i % 8 == 1:
+            pre['bps'][0]['opcodes'] = []
+            pre['bps'][-1]['rrtypes'] = []
         cases.append(gen.gen_history(r, 'k%04d' % i, comp='none', kind='name', rotations=False, nops=r.choice([5, 20, 40]) if not big else (350 if tier == 'quick' else 1200), big=big,
-                                     preamble=gen.gen_preamble(r, rich=(i % 4 == 0), nbps=r.choice([1, 2, 3])) if i % 4 else None))
+                                     preamble=pre))
     for c in cases:
         for bp in c['preamble']['bps']:
             if bp['tps'] == 0 or bp['tps'] > 10 ** 9:
